@@ -193,6 +193,81 @@ def lattice_unit(u) -> Stats:
     return st
 
 
+class NestedGame:
+    """A complete game whose value lookup itself runs a Shapley computation of ANOTHER game with the same number of players (as a
+    meta-game over exploitabilities does): the outer computation must not be disturbed by the inner one."""
+
+    def __init__(self, table, inner_table) -> None:
+        self.table = [float(x) for x in table]
+        self.inner = envs.full_game(inner_table)
+        self.number_of_players = self.inner.number_of_players
+
+    def _touch(self) -> None:
+        from incomplete_cooperative.shapley import compute_shapley_value, compute_shapley_value_for_player
+        list(compute_shapley_value(self.inner))
+        compute_shapley_value_for_player(0, self.inner)
+
+    def get_values(self, coalitions=None):
+        import numpy as np
+        self._touch()
+        if coalitions is None:
+            return np.array(self.table)
+        return np.array([self.table[c.id] for c in coalitions])
+
+    def get_value(self, coalition):
+        self._touch()
+        return self.table[coalition.id]
+
+    def copy(self):
+        return self
+
+    def __add__(self, other):
+        raise NotImplementedError
+
+
+def reentrancy_unit(u) -> Stats:
+    """Re-entrancy and partial consumption: (a) games whose value lookup computes a Shapley value of the same size; (b) the iterator
+    returned by compute_shapley_value abandoned after k < n values, or two iterators consumed alternately."""
+    import itertools as it
+    from incomplete_cooperative.shapley import compute_shapley_value, compute_shapley_value_for_player
+    st = Stats()
+    for n in (3, 4, 5):
+        outer = [0] + [((s * 5 + 3) % 7) - 2 for s in range(1, 1 << n)]
+        inner = [0] + [((s * 3 + 1) % 5) for s in range(1, 1 << n)]
+        want = [float(x) for x in O.shapley_by_orderings(outer, n)]
+        try:
+            g = NestedGame(outer, inner)
+            got_all = [float(x) for x in compute_shapley_value(g)]
+            got_one = [float(compute_shapley_value_for_player(i, g)) for i in range(n)]
+        except Exception as e:  # noqa: BLE001
+            st.violation(f"[shapley n={n} nested] raised {type(e).__name__}: {e}", n=n, values=outer, kind="nested")
+            continue
+        st.states += 1
+        st.transitions += 2 * n
+        st.evals += 1
+        st.nontrivial += 1
+        for name, got in (("compute_shapley_value", got_all), ("compute_shapley_value_for_player", got_one)):
+            if any(abs(a - b) > TOL * 10 for a, b in zip(got, want)):
+                st.violation(f"[shapley n={n} nested] {name} = {got} on a game whose value lookup computes another Shapley value of the same size; "
+                             f"the orderings average of its value table is {want}", n=n, values=outer, kind="nested")
+        # partial consumption / interleaving, then an ordinary full computation on another game
+        a_game, b_game = envs.full_game(outer), envs.full_game(inner)
+        want_b = [float(x) for x in O.shapley_by_orderings(inner, n)]
+        for k in range(1, n):
+            list(it.islice(compute_shapley_value(a_game), k))          # abandoned after k values
+            got = [float(x) for x in compute_shapley_value(b_game)]
+            st.evals += 1
+            st.transitions += 1
+            if any(abs(x - y) > TOL * 10 for x, y in zip(got, want_b)):
+                st.violation(f"[shapley n={n}] after an iterator of compute_shapley_value was abandoned after {k} values, the next full computation "
+                             f"returns {got}, expected {want_b}", n=n, values=inner, kind="partial", k=k)
+                break
+        pairs = list(zip(compute_shapley_value(a_game), compute_shapley_value(b_game)))     # two iterators consumed alternately
+        if any(abs(float(x) - w) > TOL * 10 for (x, _), w in zip(pairs, want)) or any(abs(float(y) - w) > TOL * 10 for (_, y), w in zip(pairs, want_b)):
+            st.violation(f"[shapley n={n}] two iterators consumed alternately disturb each other: {pairs}", n=n, values=outer, kind="interleaved")
+    return st
+
+
 def interleaved_unit(u) -> Stats:
     """One process, player counts interleaved (ascending, descending, alternating, repeated): the value of a game must not depend on
     which player counts were used before (memoised coefficients / id arrays keyed too coarsely would show here)."""
@@ -240,6 +315,8 @@ def large_unit(u) -> Stats:
 
 
 def dispatch(u) -> Stats:
+    if u[0] == "reentrancy":
+        return reentrancy_unit(u)
     if u[0] == "large":
         return large_unit(u)
     if u[0] == "inter":
@@ -288,6 +365,8 @@ def run(run: Run) -> None:
     us += [("a4ter", i, min(i + 243, 3 ** 6), seed) for i in range(0, 3 ** 6, 243)]
     us += [("scaled", i, i + 23, seed) for i in range(0, 69, 23)]
     us += [("large", 17, (0,)), ("large", 17, (16,)), ("large", 16, (15,))] + ([] if quick else [("large", 17, (5,)), ("large", 18, (17,))])
+    us.append(("reentrancy", 0))
+    us.append(("large", 20, (0,)))          # beyond 18! (the last factorial below 2^53)
     inter = [("inter", o) for o in ((2, 3, 4, 5, 6, 7), (7, 6, 5, 4, 3, 2), (3, 6, 3, 5, 3, 4, 3), (5, 5, 2, 5, 7, 2, 5), (4, 3, 4, 3, 6, 4))]
     run.rule = ("(i) the real Shapley code executed on indeterminates for each n: exact coefficient of every v(S) for every player compared with the "
                 "count over all n! orderings; (ii) every unit game e_S (a basis of the game space) through the real float path, both entry points; "
@@ -309,6 +388,8 @@ def replay(doc: dict):
         st = guard_unit(doc["n"])
     elif doc.get("large"):
         st = large_unit(("large", doc["n"], tuple(doc.get("players", (0,)))))
+    elif doc.get("kind") in ("nested", "partial", "interleaved"):
+        st = reentrancy_unit(("reentrancy", 0))
     else:
         check_game(st, doc["n"], doc["values"], "replay")
     msgs = [v["message"] for v in st.violations]
